@@ -146,3 +146,27 @@ func VC15Err() {
 	vAssert(gerr != io.EOF && !errors.Is(gerr, io.EOF), "a source I/O error is never reported as a clean end-of-file")
 	vReach("end")
 }
+
+// C15 (seek failures): the Seek call with symbolic index S fails: an index-based read (and Info) ends with an
+// error - never a clean end-of-file, never a crash - and the messages returned before it are a prefix.
+// params: tpl, cfg, cs, ord, slo, shi (cell of S)
+func VC15Seek() {
+	tpl, cfg, cs, ord := vParam("tpl"), vParam("cfg"), vParam("cs"), vParam("ord")
+	file := vC15File(tpl, cfg, cs)
+	ref, rerr := vIndexedMessages(vNewSource(file), ord)
+	vAssert(rerr == io.EOF, "plain indexed read ends with EOF")
+	S := vSymInt("S")
+	vAssume(vAnd(S >= vParam("slo"), S < vParam("shi")))
+	src := vNewSource(file)
+	src.seekErr = vConcretize(S, 64)
+	got, gerr := vIndexedMessages(src, ord)
+	vMsgsPrefix(got, ref, "indexed")
+	if src.seeks > src.seekErr {
+		// the failing Seek did happen
+		vAssert(gerr != nil && gerr != io.EOF && !errors.Is(gerr, io.EOF), "a failed Seek is reported as an error, not as end-of-file")
+		vReach("seek-failed")
+	} else {
+		vAssert(gerr == io.EOF && len(got) == len(ref), "without the fault the read is the plain one")
+	}
+	vReach("end")
+}
